@@ -122,6 +122,8 @@ static struct argp argp = {options, parse_opt, args_doc, doc};
 int main (int argc, char *argv[]) {
     struct arguments arguments = {0};
 
+    ensure_std_fds();
+
     /* Defaults */
     arguments.log_level = ZCK_LOG_ERROR;
 
